@@ -238,7 +238,7 @@ var c07Bufs = []int{1, 7, 100, 4096, 50000}
 func TestC07(t *testing.T) {
 	rec := evid.For("C07")
 	rec.Rule = "rapid state machine over 2-6 simultaneously open connections (roles and compression modes drawn per connection) with scripted peers; every inbound payload byte is a function of (connection, message, offset). Actions: peer sends a message (un/compressed, 1-3 fragments); read n bytes; read to EOF; read AGAIN from a reader that already returned EOF; abandon a message and ask for a new reader; protocol violation mid-message; local Close/CloseNow; peer Close frame between the fragments of a compressed message; reader context expiry mid-message; wsjson.Read; wsjson.Read of a document cut short (close, violation, context expiry, read limit) or invalid; two wsjson.Read calls on two connections overlapping in time; two connections' compressed messages read interleaved; asking for the next message after reading only part of a small one; open a fresh connection (reusing the pools); write messages (checked on the wire by the reference decoder). Oracle: every Read result is the next bytes of that connection's own stream or an error, no byte is lost, a read after EOF yields no data, no panic. Non-trivial: a connection released pooled reader state (EOF, error, close) and a different connection subsequently started reading a compressed message. distinct = hash(step sequence)."
-	rapid.Check(t, func(rt *rapid.T) {
+	checkProp(t, func(rt *rapid.T) {
 		rapid.SyncTest(rt, func(rt *rapid.T) {
 			e := newEnv(rt)
 			defer e.Teardown()
@@ -772,7 +772,7 @@ func TestC07(t *testing.T) {
 // own bytes.
 func TestC07Parallel(t *testing.T) {
 	rec := evid.For("C07")
-	rapid.Check(t, func(rt *rapid.T) {
+	checkProp(t, func(rt *rapid.T) {
 		nConns := rapid.IntRange(2, 5).Draw(rt, "nConns")
 		type plan struct {
 			mode  c03Mode
